@@ -28,7 +28,7 @@ PROGS = [
     ("funcs", "C", "#include <stdio.h>\n#define MAXV 3\nstatic int g1;\nstatic int g2;\n/* about add */\nint add(int a, int b)\n{\n    int r;\n    int s = 1;\n    r = a + b;\n    if (r > MAXV) {\n        r = MAXV;\n    }\n    return r + s;\n}\n// about nop\nvoid nop(void)\n{\n}\nint twice(int x) { return add(x, x); }\nint proto1(int);\nint proto2(int);\n"),
     ("struct", "C", "struct P {\n    int x;\n    int y;\n};\ntypedef int myint;\ntypedef long mylong;\nenum E { A, B };\nstruct P pt;\nint after;\n"),
     ("switch", "C", "int sw(int v)\n{\n    switch (v) {\n    case 1:\n        v++;\n        break;\n    case 2: {\n        v--;\n        break;\n    }\n    default:\n        break;\n    }\n    return v;\n}\n"),
-    ("pp", "C", "#ifndef G_H\n#define G_H\n#include <stddef.h>\n#if defined(X)\nint a1;\n#else\nint a2;\n#endif\n#define M(a) \\\n    ((a) + \\\n     1)\nint z;\n#endif\n"),
+    ("pp", "C", "#ifndef G_H\n#define G_H\n#include <stddef.h>\n#if defined(X)\nint a1;\n#else\nint a2;\n#endif\n#define M(a) \\\n    ((a) + \\\n     1)\nint z;\n#pragma pack(1)\nint zp;\n#pragma pack()\n#warning note this\nint zw;\n#endif\n"),
     ("comments", "C", "/* file header\n * two\n */\nint a;\n/* multi\n\n   with blank */\nint b; // trailing\n// line one\n// line two\nint c;\n"),
     ("class", "CPP", "namespace ns {\nclass A {\npublic:\n    A();\n    ~A();\n    int get() const { return x_; }\nprivate:\n    int x_;\n};\nstruct B { int q; };\n}\nusing namespace ns;\nA::A() : x_(0)\n{\n}\nint A_get(A &a)\n{\n    try {\n        return a.get();\n    } catch (...) {\n    }\n    return 0;\n}\n"),
     ("brace-comments", "C", "struct Q { // members\n    int x;\n    int y;\n};\nint bc(int a)\n{ /* body */\n    for (;;) { // loop\n        a++;\n        break;\n    }\n    int arr[] = { // init\n        1, 2\n    };\n    return a + arr[0];\n}\n"),
